@@ -42,6 +42,8 @@ pub struct Case {
     pub age: usize,      // 0 fresh, 1 two hours old, 2 one hour in the future
     pub chain: usize,    // 0 paid, 1 unpaid, 2 rpc error, 3 http 503, 4 http 429, 5 connection closed
     pub own_quote_for_address: bool,
+    /// when the own quote names another address: the all-zero content (what the node signs for an address kind that has no name)
+    pub own_quote_zero: bool,
     pub kind: Kind,
     pub prior: Prior,
     /// which quote carries the age defect: false = another payee's, true = this node's own
@@ -108,7 +110,7 @@ pub fn build_proof(c: &Case, key: &RecordKey) -> (ant_evm::ProofOfPayment, Vec<[
     let third = if c.all_close { 3 } else { 9 };
     let own_ts = if c.age_on_own { ts_of(c.age) } else { ts_of(0) };
     let other_ts = if c.age_on_own { ts_of(0) } else { ts_of(c.age) };
-    let own_q = rec::quote(own, if c.own_quote_for_address { addr } else { other_addr }, own_ts);
+    let own_q = rec::quote(own, if c.own_quote_for_address { addr } else if c.own_quote_zero { XorName::default() } else { other_addr }, own_ts);
     let mut q2 = rec::quote(2, addr, other_ts);
     let listed2 = 2u8;
     match c.sig {
@@ -125,7 +127,7 @@ fn describe(c: &Case) -> serde_json::Value {
     json!({"kind": format!("{:?}", c.kind), "prior": format!("{:?}", c.prior),
         "signatures": (["authentic", "one forged", "one signed by another key"][c.sig]), "self_among_payees": c.self_payee, "all_payees_close": c.all_close,
         "age": (["fresh", "2h old", "1h in the future"][c.age]), "age_defect_on_own_quote": c.age_on_own,
-        "chain": (["paid", "unpaid", "rpc error", "http 503 on every attempt", "http 429 on every attempt", "connection closed on every attempt"][c.chain]), "own_quote_for_this_address": c.own_quote_for_address})
+        "chain": (["paid", "unpaid", "rpc error", "http 503 on every attempt", "http 429 on every attempt", "connection closed on every attempt"][c.chain]), "own_quote_for_this_address": c.own_quote_for_address, "own_quote_content_all_zero": c.own_quote_zero})
 }
 
 fn stored_matches(kind: Kind, stored: &[u8], up: &Upload) -> bool {
@@ -280,8 +282,8 @@ fn unpaid_cases(run: &Run, stub: &Arc<EvmStub>) {
 
 pub fn cases(quick: bool) -> Vec<Case> {
     let mut v = vec![];
-    enumerate::product(&[3, 2, 2, 3, 6, 2, 4, 3, 2], |ix| {
-        let c = Case { sig: ix[0], self_payee: ix[1] == 0, all_close: ix[2] == 0, age: ix[3], chain: ix[4], own_quote_for_address: ix[5] == 0, kind: KINDS[ix[6]], prior: [Prior::Absent, Prior::SameVersion, Prior::OtherVersion][ix[7]], age_on_own: ix[8] == 1 };
+    enumerate::product(&[3, 2, 2, 3, 6, 3, 4, 3, 2], |ix| {
+        let c = Case { sig: ix[0], self_payee: ix[1] == 0, all_close: ix[2] == 0, age: ix[3], chain: ix[4], own_quote_for_address: ix[5] == 0, own_quote_zero: ix[5] == 2, kind: KINDS[ix[6]], prior: [Prior::Absent, Prior::SameVersion, Prior::OtherVersion][ix[7]], age_on_own: ix[8] == 1 };
         if c.age == 0 && c.age_on_own {
             return; // no age defect: the placement flag is irrelevant
         }
@@ -310,7 +312,7 @@ pub fn main(tier: Option<&str>) {
     let run = Run::new("C03", "model_checking", tier);
     run.rule(
         "product of six payment conditions (signatures 3 x self-payee 2 x closeness 2 x age 3 (on another payee's or on the own quote) x \
-         chain answer 6 (paid, unpaid, JSON-RPC error, HTTP 503 / 429 / connection closed on every attempt) x quoted address 2) x kind 4 x prior content 3; quick = full product for chunks on an empty store + every single \
+         chain answer 6 (paid, unpaid, JSON-RPC error, HTTP 503 / 429 / connection closed on every attempt) x quoted address 3 (this address, another address, the all-zero content)) x kind 4 x prior content 3; quick = full product for chunks on an empty store + every single \
          and double fault for the other kinds + single faults on held keys, thorough = full product. Each case runs the real \
          Node::validate_and_store_record on a fresh real SwarmDriver under the default (FIFO) schedule to quiescence, the payment \
          contract answered by a loopback JSON-RPC stub. Plus every unpaid kind x prior content. Non-trivial = at least one condition \
